@@ -141,6 +141,17 @@ def output_sxr(d, ctx):
         ic[k, owner[k]] *= d.choice([3.0, 30.0])
     ic = ic * d.log10(-3, 3)
     nc = rng.normal(size=(Kt, T)) * np.std(ic) * 10 ** rng.uniform(-2, 0)
+    if d.epoch >= 3 and Kt >= 2 and d.aux(197).integers(0, 4) == 0:
+        # an output that is nearly a copy of another one (a second beamformer
+        # that converged to almost the same filter): captured powers that
+        # differ by 1e-7..1e-4 relative - clearly more than rounding, so the
+        # maximising selection is still unique - with very different noise
+        aux = d.aux(198)
+        j = int(aux.integers(0, Kt))
+        i = int((j + 1 + aux.integers(0, Kt - 1)) % Kt)
+        delta = float(10.0 ** aux.uniform(-7, -4)) * float(aux.choice([-1.0, 1.0]))
+        ic[:, i] = ic[:, j] * (1 + delta)
+        nc[i] = nc[j] * float(10.0 ** aux.uniform(-1.5, 1.5))
     ic, nc = gen.vary(d, ic, 195), gen.vary(d, nc, 196)
     avg = d.bool()
     res = ctx.lib(f, ic, nc, average_sources=avg)
